@@ -177,8 +177,12 @@ def judge_triple(ctx, case):
                 g = V.address_generator(vpar)
                 next(g)
                 g.send(ctx.rnd.randrange(1, 5))
-            s0 = ctx.rnd.choice([0, 0, 2, 5])
-            e0 = s0 + ctx.rnd.randrange(3, 12)
+            if ctx.rnd.random() < 0.3:
+                e0 = H                                   # listing that ends exactly at the last non-hardened child number
+                s0 = H - ctx.rnd.randrange(1, 4)
+            else:
+                s0 = ctx.rnd.choice([0, 0, 2, 5])
+                e0 = s0 + ctx.rnd.randrange(3, 12)
             vl = vpar.generate_children(interval=(s0, e0))
             wl = wpar.generate_children(interval=(s0, e0))
             refpar = rb32.derive(E.neuter(), sub)
